@@ -150,6 +150,19 @@ def run_c13(case):
                     out.append(viol("C13", "model", "necessary-args-differ-from-reference", name, holder=j,
                                     got=sorted(h.necessary_args), want=sorted(rf.necessary())))
                     break
+        # copies and partial wrappers of the SUBCLASSES stay instances of their class (a DomainUserFunction post-processes
+        # what the user's function returns; a copy that silently becomes a plain UserFunction does not)
+        if args:
+            dh = DomainUserFunction(f)
+            dc = copy.deepcopy(dh)
+            stats["subclass_copies"] = stats.get("subclass_copies", 0) + 1
+            if type(dc) is not DomainUserFunction:
+                out.append(viol("C13", "copy", "deepcopy-changes-the-wrapper-class", "", got=type(dc).__name__))
+            req = [a for a in args if a not in dh.defaults]
+            if len(req) >= 2:
+                dp = dh.partially_evaluate(**{req[0]: "val_sub"})
+                if isinstance(dp, UserFunction) and type(dp) is not DomainUserFunction:
+                    out.append(viol("C13", "partial", "partial-wrapper-changes-the-wrapper-class", "", got=type(dp).__name__))
     except Exception as ex:
         out.append(viol("C13", "run", "raises:" + type(ex).__name__, innermost_site(ex.__traceback__),
                         msg=traceback.format_exc()[-300:]))
